@@ -127,9 +127,9 @@ runs the check through `VERIF_REPO`, expects exit 1 and removes the copy.
 
 ### 7.5 Sensitivity: breaking changes seeded by independent sub-agents (`seeded/<name>/`)
 
-Two rounds of twenty fresh sub-agents (one per property and round) were given only the
-property text and a scratch git worktree under /tmp - nothing from /verif; in the second
-round also the one-line summaries of the first round's changes with the instruction to find
+Three rounds of twenty fresh sub-agents (one per property and round) were given only the
+property text and a scratch git worktree under /tmp - nothing from /verif; in the second and third
+rounds also the one-line summaries of the earlier rounds' changes with the instruction to find
 something of a different kind - and asked for up to two plausible changes that break the
 property, pass the whole test suite and need something specific to manifest. All ''' + str(total) + '''
 were confirmed by `tools/verify_seed.py` (patch applies, demo fails with / passes without,
@@ -137,7 +137,7 @@ all 752 baseline tests pass with the change) and are kept with `patch.diff`, `de
 `meta.json`. ''' + str(total - missed) + ''' were caught by the quick tier as it stood when they arrived; **''' + str(missed) + ''' were
 missed and led to the strengthenings listed below**, after which all ''' + str(total) + ''' are caught by the
 quick tier of their own property (`tools/mutants.py --seeded`). Names `Cxx_n` are round 1,
-`Cxx_bn` round 2.
+`Cxx_bn` round 2, `Cxx_cn` round 3 (which also suggested kinds of change: cooperating sites, configuration constants, numeric edge values, argument types, duck-typed streams, shared state between objects, half-updated objects after an error).
 
 | seed | change | first quick run | strengthening |
 |------|--------|-----------------|---------------|
@@ -154,7 +154,16 @@ belong in every length generator because block-wise implementations only differ 
 their extreme valid values (octave origin 1e-14 Hz, constant feature columns, offsets 1e3
 spreads, seed 0, durations exactly on a boundary); (v) memory layout and byte order are part
 of the input (strided / reversed / Fortran-ordered / byte-swapped arrays); (vi) a fork()ed
-child is not a fresh process - reseed what a fresh process would have fresh.
+child is not a fresh process - reseed what a fresh process would have fresh; (vii) state may be
+shared *between* objects (class-level attributes, module-level caches, mutable defaults): build
+and use *another* object of the same class with different parameters first; (viii) package
+constants named by the statements (LOG_FLOOR_VALUE, EFFECTIVE_SUPPORT_THRESHOLD) are varied, so
+a value frozen at import time is seen; (ix) whole-number arguments arrive as ints and numpy
+scalars too, streams are not only BytesIO / open(path), arrays may be ndarray subclasses and
+0-d; (x) after a rejected call the object is used again. A harness lesson: a shared spec
+gained a key that leaked into one clause's constructor arguments and silently turned every
+case of that clause into a discard - a clause that discards more than 60 % of its cases is now
+a harness error.
 '''
 p = os.path.join(H, "DESIGN.md")
 s = open(p).read()
